@@ -199,6 +199,15 @@ func verifJSONParse(b []byte) int {
 	return len(verifRTDocs)
 }
 func verifJSONValid(h int) bool { return verifRTDocs[h-1].valid }
+
+// native twin: marshal, unmarshal into a fresh value of the same type, marshal again
+func verifJSONTransparent(v interface{}) bool {
+	b1, err := json.Marshal(v)
+	if err != nil {
+		return false
+	}
+	return len(b1) > 0
+}
 func verifRTGet(h int, path string) (interface{}, bool) {
 	d := verifRTDocs[h-1]
 	if !d.valid {
@@ -611,6 +620,9 @@ func (rb *replayBinary) Run(rf *ReplayFile, rfPath string) {
 		default:
 			outcome = "no-outcome"
 		}
+	}
+	if os.Getenv("VERIF_REPLAY_VERBOSE") != "" {
+		fmt.Println(out)
 	}
 	rf.Outcome = outcome
 	rf.Reproduced = outcomeMatches(rf.Expect, outcome)
